@@ -1,7 +1,9 @@
 package quic
 
 import (
+	"encoding/json"
 	"testing"
+	"time"
 
 	"github.com/refraction-networking/uquic/internal/verifmc/explore"
 )
@@ -13,6 +15,7 @@ import (
 func TestVerifC16(t *testing.T) {
 	explore.Main("C16", []explore.Part{
 		c16MgrPart("mgr", c16MgrCfg{}),
+		c16MgrPart("mgr-wide", c16MgrCfg{wide: true}),
 		c16MgrPart("mgr-zerolen", c16MgrCfg{zero: true}),
 		c16MgrPart("mgr-uquic", c16MgrCfg{uquic: true}),
 		c16SpecPart("spec-limits"),
@@ -21,4 +24,45 @@ func TestVerifC16(t *testing.T) {
 		c16GenPart("gen-zerolen", c16GenCfg{server: true, zero: true}),
 		c16TptPart("transport", t),
 	}, func(msg string) { t.Fatal(msg) })
+}
+
+// Share of the run's deadline each part may use (the library's deadline is global; a part
+// that is cut by its slice reports exhaustive=false for the depth it did not finish, the
+// later parts still run). The bounds are chosen so that no slice is hit.
+var c16Weights = []struct {
+	name string
+	w    float64
+}{
+	{"mgr", 3}, {"mgr-wide", 2}, {"mgr-zerolen", 0.1}, {"mgr-uquic", 2}, {"spec-limits", 0.1},
+	{"gen-server", 2}, {"gen-client", 1.5}, {"gen-zerolen", 0.1}, {"transport", 2.5},
+}
+
+func c16Slice(e explore.Env, name string) explore.Env {
+	if e.Deadline.IsZero() {
+		return e
+	}
+	var mine, rest float64
+	for _, x := range c16Weights {
+		if x.name == name {
+			mine = x.w
+		}
+		if mine > 0 {
+			rest += x.w
+		}
+	}
+	explore.Must(mine > 0, "no weight for part %s", name)
+	rem := time.Until(e.Deadline)
+	if rem > 0 {
+		e.Deadline = time.Now().Add(time.Duration(float64(rem) * mine / rest))
+	}
+	return e
+}
+
+// c16Part is explore.BFSPart with a per-part slice of the deadline.
+func c16Part(name string, mk func(e explore.Env) explore.BFSSpec) explore.Part {
+	return explore.Part{
+		Name:   name,
+		Run:    func(e explore.Env) *explore.Report { return explore.BFS(c16Slice(e, name), mk(e)) },
+		Replay: func(e explore.Env, raw json.RawMessage) *explore.Violation { return explore.ReplayBFS(mk(e), raw) },
+	}
 }
